@@ -91,11 +91,13 @@ def check(model: Model, run: Run) -> None:
         for n in ast.walk(f2.node):
             if isinstance(n, ast.Attribute) and n.attr == IBUF and isinstance(n.ctx, (ast.Store, ast.Del)):
                 writers.append((fq, f2, n))
+    from ..regions import decode_region as _dr
+    _region_q = {r.fi.qualname for r in _dr(model)}
     for fq, f2, n in writers:
-        ok = f2.cls in SESSION_CLASSES and f2.name in ("__init__", "receive")
+        ok = f2.cls in SESSION_CLASSES and (f2.name in ("__init__", "receive") or fq in _region_q)
         run.ob("L3-residue-writers", ok, {"function": fq})
         if not ok:
-            run.fail(Finding("L3-residue-writers", fq, norm(n), "the incoming buffer is written outside __init__/receive", model.loc(f2.module, n)))
+            run.fail(Finding("L3-residue-writers", fq, norm(n), "the incoming buffer is written outside __init__/receive and its decode helpers", model.loc(f2.module, n)))
     run.floor("incoming buffer writers", len(writers), 2)
     # who may look at the residue: only receive (and the decode helpers it hands the reader to).  Anything else that branches on
     # the residue makes the outcome depend on where the stream happened to be cut.
